@@ -1,5 +1,5 @@
 """Rule registry: name -> callable(ctx, prop) -> RuleResult | [RuleResult]."""
-from . import trav, exh, backend, names, fields, compiler, memory, purity, determinism, patterns, unify, provenance, simplify, frontend
+from . import trav, exh, backend, names, fields, compiler, memory, purity, determinism, patterns, unify, provenance, simplify, frontend, forwarding
 
 
 def _trav_scoped(classes, name):
@@ -65,6 +65,8 @@ RULES = {
     "UFOWN": provenance.rule_ufown,
     "EQVSHAPE": provenance.rule_eqvshape,
     "NOPROV": provenance.rule_noprov,
+    "FWDTHREAD": forwarding.rule_fwdthread,
+    "FWDHELPERS": forwarding.rule_fwdhelpers,
     "FWDPRESENT": provenance.rule_fwdpresent,
     "FWDWALK": provenance.rule_fwdwalk,
     "ANNOTONLY": provenance.rule_annotonly,
